@@ -12,6 +12,7 @@
 #include "axlobs.h"
 
 extern void 	macexInitFile	(void);
+extern void	macexSetUndoState	(void);
 extern void 	macexFiniFile	(void);
 
 extern  AbSyn   macroExpand     (AbSyn);
